@@ -169,7 +169,7 @@ def judge_shifts(ctx, rows, limit=6, compare_model=True):
     impl = [w_date(v) if st == "ok" else None for _, _, (st, v), _ in rows]
     out = common.Driver(DRV).run([{"op": "intShift", "items": [w_date(d) + [k] for d, k, _, _ in rows], "impl": impl}])[0]
     n_fail = n_known = n_dis = 0
-    for (d, k, (st, v), extra), im, mo, sp in zip(rows, impl, out["model"], out["spec"]):
+    for (d, k, (st, v), extra), im, mo, sp, dy in zip(rows, impl, out["model"], out["spec"], out["day"]):
         case = {"call": "add_months(date, k)", "date": w_date(d), "k": k, **(extra or {})}
         i0 = mid(d)
         if st == "err":
@@ -186,6 +186,14 @@ def judge_shifts(ctx, rows, limit=6, compare_model=True):
                     ctx.fail("add_months(d, k) is not exactly k calendar months after d / month end not kept "
                              "(expected result >= 1970-01-01, or a month end moved by an integer)", case,
                              {"impl": im, "model": mo, "expected_month": w_date(month_end_of_id(i0 + k))[:2]})
+        elif dy is False and compare_model:
+            # (compare_model False = offsets k +- a hair: from a tie day the exact day of k +- hair is another one than k's)
+            # Spec.intShiftDayOk: for a target month from 1970 on the DAY is determined for every start date (theorem
+            # addMonths_int_day): the elapsed fraction of the start month carried to the target month, rounded half to even
+            n_fail += 1
+            if n_fail <= limit:
+                ctx.fail("add_months(d, k): the day of the result is not round(day / days_in_month(d) * days in the target "
+                         "month) (Spec.intShiftDayOk; year and month are right)", case, {"impl": im, "closed_form": mo})
         elif im != mo and compare_model:
             n_dis += 1
             if n_dis <= limit:
@@ -423,7 +431,7 @@ RES_UNITS = ["month", "months", "Month", "MONTHS", "quarter", "quarters", "Quart
 
 def stream_devlag(ctx, rng, n, lessons=()):
     """random cases, then the lesson cases (dicts of lesson_devlag_cases) through the same calls and verdicts"""
-    items, impl, meta = [], [], []
+    items, impl, meta, backs = [], [], [], []
 
     def ask(target, unit, route):
         """one dev_lag question.  target = a Cell (routes cell*, record*) or (pe, ev) (routes fn*)"""
@@ -447,6 +455,8 @@ def stream_devlag(ctx, rng, n, lessons=()):
             return call(du.calculate_dev_lag, target[0], target[1])
         raise common.Infra(f"unknown route {route}")
 
+    month_lag_bad = [0]
+
     def one(ped, evd, unit, target, route, sample=None, tag=None):
         st, v = ask(target, unit, route)
         if tag is not None:
@@ -467,8 +477,29 @@ def stream_devlag(ctx, rng, n, lessons=()):
                 wv = w_rat(v)
         else:
             kind, wv = v, None
+        back = None
+        if st == "ok" and "month" in unit.lower() and isinstance(v, (int, float, np.integer, np.floating)) and v == v \
+                and abs(v) != float("inf"):
+            # a MONTH lag: (i) it is the very float dev_lag_months(period_end, evaluation_date) returns, whatever the route
+            # (Cell.dev_lag, to_record, calculate_dev_lag); (ii) added to the period end it leads back to the evaluation
+            # date — `back` goes to the driver, which judges it (Spec.cellLagInverseOk) where the law holds in the model
+            sr, ref = call(du.dev_lag_months, ped, evd)
+            if (sr, ref) != ("ok", v):
+                month_lag_bad[0] += 1
+                if month_lag_bad[0] <= 12:
+                    ctx.fail("a cell's / calculate_dev_lag's month lag is not dev_lag_months(period_end, evaluation_date)",
+                             {"pe": w_date(ped), "ev": w_date(evd), "unit": unit, "route": route,
+                              "ps": w_date(target.period_start) if hasattr(target, "period_start") else None},
+                             {"lag": repr(v), "dev_lag_months": repr(ref)})
+            sb, b = call(du.add_months, ped, v)
+            back = w_date(b) if sb == "ok" else None
+            ctx.count("devLag/month lag: compared with dev_lag_months, led back through add_months")
+            if hasattr(target, "period_start") and target.period_start.day == 1 and not is_month_end(ped):
+                ctx.count("devLag/month lag of a cell starting on the 1st and ending mid-month"
+                          + (", evaluated at a month end" if is_month_end(evd) else ""))
         items.append(w_date(ped) + w_date(evd) + [unit])
         impl.append(wv)
+        backs.append(back)
         meta.append((route, kind, unit))
         ctx.case(digest=f"devlag/{ped.toordinal()}/{evd.toordinal()}/{unit}" + (f"/{route}/{tag}" if tag else ""), sample=sample)
         ctx.count(f"devLag/unit={unit!r}")
@@ -498,10 +529,24 @@ def stream_devlag(ctx, rng, n, lessons=()):
             sample={"op": "dev_lag", "pe": w_date(ped), "ev": w_date(evd), "unit": unit} if i < 1 else None)
     for lc in lessons:
         one(lc["pe"], lc["ev"], lc["unit"], lc["target"], lc["route"], tag=lc["tag"])
-    out = common.Driver(DRV).run([{"op": "devLag", "items": items, "impl": impl}])[0]
-    for it, wv, (route, kind, unit), mo, sp in zip(items, impl, meta, out["model"], out["spec"]):
+    out = common.Driver(DRV).run([{"op": "devLag", "items": items, "impl": impl, "back": backs}])[0]
+    n_inv = 0
+    for it, wv, bk, (route, kind, unit), mo, sp, inv in zip(items, impl, backs, meta, out["model"], out["spec"], out["inverse"]):
         case = {"call": {"cell": "Cell.dev_lag(unit)", "fn": "calculate_dev_lag(pe, ev, unit)"}.get(route, route),
                 "pe": it[0:3], "ev": it[3:6], "unit": unit}
+        if inv is False:
+            # evaluation date from 1970 on or a month end (where the model proves the law, addMonths_devLag_iff; the
+            # pre-1970 non-month-end targets of finding D8 are not judged)
+            if it[3] < 1970:
+                # expected result before 1970: finding D8 (a month-end target is recovered by the exact model, but the float
+                # lag from the origin is a hair beside the integer and int() truncates it toward zero)
+                known_once(ctx, case)
+                continue
+            n_inv += 1
+            if n_inv <= 12:
+                ctx.fail("add_months(period_end, month lag) is not the evaluation date (the inverse law through "
+                         "Cell.dev_lag / calculate_dev_lag; Spec.cellLagInverseOk)", case, {"lag": wv, "back": bk, "model_lag": mo})
+            continue
         if mo is None or wv is None:
             if (mo is None) != (wv is None) or (wv is None and kind != "ValueError"):
                 ctx.fail("unit dispatch: 'month' / 'day' substring or 'timedelta', anything else ValueError",
@@ -810,7 +855,8 @@ def stream_resolution(ctx, rng, n, lessons=()):
             else:
                 n_fail += 1
                 if n_fail <= 40:
-                    ctx.fail("resolution_delta does not agree with add_months (month units) / day arithmetic (day, week units)",
+                    ctx.fail("resolution_delta does not agree with add_months (month units: exactly k calendar months later, the "
+                             "day by Spec.intShiftDayOk) / day arithmetic (day, week units)",
                              case, {"impl": im, "model": mo["res"], "agrees_with_add_months_or_timedelta": same})
         elif im != mo["res"]:
             ctx.disagree("resolution_delta", case, mo["res"], im)
@@ -1281,6 +1327,18 @@ def lesson_devlag_cases(ctx, lrng):
             ("dec-jan-wrap", D(y - 1, 12, 1), D(y - 1, 12, 31), D(y, 1, 31)),
             ("dec-jan-wrap", D(y - 1, 12, 1), D(y - 1, 12, 15), D(y, 1, 15)),
         ]
+    # periods that START on the 1st and END inside the month (semi-monthly, weekly, daily), and their month-aligned and
+    # second-half neighbours, evaluated at month ends and mid-month: a "month aligned" shortcut must look at BOTH ends
+    for y in (2024, 2023, 1972, lrng.randrange(1971, 2099)):
+        for m in (2, lrng.randrange(1, 11)):
+            for ev in (month_end_of_id(mid(D(y, m, 1)) + lrng.choice([0, 1, 2, 5, 12, 25])), D(y, m + 1, 15)):
+                scen += [("ps-1st,pe-mid-month/semi-monthly", D(y, m, 1), D(y, m, 15), ev),
+                         ("ps-1st,pe-mid-month/weekly", D(y, m, 1), D(y, m, 7), ev),
+                         ("ps-1st,pe-mid-month/daily", D(y, m, 1), D(y, m, 1), ev),
+                         ("ps-1st,pe-mid-month/quarter-stub", D(y, m, 1), D(y, m + 1, 20), max(ev, D(y, m + 1, 20))),
+                         ("ps-16th,pe-month-end/semi-monthly", D(y, m, 16), D(y, m, dim(y, m)), ev),
+                         ("ps-1st,pe-month-end/month-aligned", D(y, m, 1), D(y, m, dim(y, m)), ev),
+                         ("ps-8th,pe-14th/weekly", D(y, m, 8), D(y, m, 14), ev)]
     scen += [("first/last-date", D(1970, 1, 1), D(1970, 1, 1), D(2100, 12, 31)),
              ("first/last-date", D(1970, 1, 1), D(1970, 1, 31), D(2100, 12, 31)),
              ("pre-1970", D(1900, 2, 1), D(1900, 2, 28), D(1904, 2, 29)),
